@@ -415,7 +415,11 @@ func (e *Exec) visitInstr(fr *frame, instr ssa.Instruction) continuation {
 		*defers = &deferred{fn: fn, args: args, instr: instr, tail: *defers}
 
 	case *ssa.Go:
-		e.unsupported("go statement in %s", fr.fn)
+		if !e.P.cfg.Goroutines {
+			e.unsupported("go statement in %s", fr.fn)
+		}
+		fn, args := e.prepareCall(fr, &instr.Call)
+		e.spawn(instr.Pos(), fn, args)
 
 	case *ssa.MakeChan:
 		n := e.concInt(fr.get(instr.Size).(Sc), "chan size")
@@ -1125,7 +1129,11 @@ func (e *Exec) chanSend(c *Chan, v Value) {
 		panic(targetPanic{Iface{t: e.P.rtErrT, v: Str{s: "send on closed channel"}}})
 	}
 	if len(c.buf) >= c.cap {
-		panic(pathEnd{endBlocked, "send on full/unbuffered channel (single goroutine)"})
+		// (an unbuffered channel is modelled as one with a single slot: the sender does not wait for the receiver)
+		e.blockUntil(func() bool { return c.closed || len(c.buf) < c.cap || (c.cap == 0 && len(c.buf) < 1 && e.P.cfg.Goroutines) }, "send on full/unbuffered channel")
+		if c.closed {
+			panic(targetPanic{Iface{t: e.P.rtErrT, v: Str{s: "send on closed channel"}}})
+		}
 	}
 	old := c.buf
 	e.journalUndo(func() { c.buf = old })
@@ -1146,7 +1154,8 @@ func (e *Exec) chanRecv(c *Chan, elem types.Type) (Value, bool) {
 	if c.closed {
 		return zero(elem), false
 	}
-	panic(pathEnd{endBlocked, "receive on empty channel (single goroutine)"})
+	e.blockUntil(func() bool { return len(c.buf) > 0 || c.closed }, "receive on empty channel")
+	return e.chanRecv(c, elem)
 }
 
 func (e *Exec) chanClose(c *Chan) {
@@ -1176,28 +1185,30 @@ func (e *Exec) selectOp(fr *frame, instr *ssa.Select) Value {
 		}
 	}
 	tickerChosen := chosen
-	for i, st := range instr.States {
-		if chosen >= 0 {
-			break
-		}
-		c := fr.get(st.Chan).(*Chan)
-		if c == nil {
-			continue
-		}
-		if st.Dir == types.RecvOnly {
-			if len(c.buf) > 0 || c.closed {
-				chosen = i
-				break
+	ready := func() int {
+		for i, st := range instr.States {
+			c := fr.get(st.Chan).(*Chan)
+			if c == nil {
+				continue
 			}
-		} else {
-			if c.closed || len(c.buf) < c.cap {
-				chosen = i
-				break
+			if st.Dir == types.RecvOnly {
+				if len(c.buf) > 0 || c.closed {
+					return i
+				}
+			} else {
+				if c.closed || len(c.buf) < c.cap || (e.P.cfg.Goroutines && c.cap == 0 && len(c.buf) < 1) {
+					return i
+				}
 			}
 		}
+		return -1
+	}
+	if chosen < 0 {
+		chosen = ready()
 	}
 	if chosen < 0 && instr.Blocking {
-		panic(pathEnd{endBlocked, "select with no ready case (single goroutine)"})
+		e.blockUntil(func() bool { return ready() >= 0 }, "select with no ready case")
+		chosen = ready()
 	}
 	r := Tuple{mkInt(int64(chosen)), mkBool(false)}
 	for i, st := range instr.States {
